@@ -14,6 +14,10 @@
  */
 #include "vf.h"
 #include "stubs.h"
+/* byte-loop memcpy model (CBMC's built-in memcpy is imprecise when the source is one of several heap objects of
+ * different sizes with a symbolic length: qmemdup of a value chosen by a symbolic key) */
+#define VF_CN "tree"
+#include "listmem.h"
 #include "utilities/qstring.c"
 #include "containers/qtreetbl.c"
 
@@ -36,6 +40,10 @@
 #ifndef VF_PDSZ
 #define VF_PDSZ 2     /* size of the values already in the tree */
 #endif
+#ifndef VF_PDSZ_ODD
+#define VF_PDSZ_ODD VF_PDSZ  /* size of the stored values of the odd-ranked keys (constant per query; lets neighbouring keys carry values of different lengths) */
+#endif
+#define PDMAX (VF_PDSZ > VF_PDSZ_ODD ? VF_PDSZ : VF_PDSZ_ODD)
 #ifndef VF_DSZ
 #define VF_DSZ 1      /* size of the value put by the operation */
 #endif
@@ -65,7 +73,11 @@
 #ifdef VF_ALLOCFAIL
 #define VF_AF 1
 #define FP "C15.tree."
+#ifdef VF_SHAPE_OWNER_C02
+#define FP2 "C02."       /* C02 itself says: valid after every operation, whether it succeeded or FAILED */
+#else
 #define FP2 "C15.tree."
+#endif
 #else
 #define VF_AF 0
 #define FP "C01."
@@ -75,7 +87,7 @@
 
 struct vf_input {
     uint8_t k2[NN];          /* second key byte of the stored keys (VF_KSZ==2) */
-    uint8_t pv[NN][VF_PDSZ]; /* stored values */
+    uint8_t pv[NN][PDMAX]; /* stored values */
     uint8_t ttid, tid[NN];   /* traversal epoch of the table and stamps of the nodes */
     int8_t nx[NN];           /* `next` link of each node: -1 NULL, else node index */
     uint8_t k, k1;           /* operation key */
@@ -267,7 +279,8 @@ static void scribble_free(uint8_t *b, size_t n) {
 static void build_prestate(qtreetbl_t *t) {
     for (size_t i = 0; i < VF_N; i++) {
         qtreetbl_obj_t *o = calloc(1, sizeof(*o));
-        uint8_t *nm = malloc(VF_KSZ), *dt = malloc(VF_PDSZ);
+        const size_t pds = (i & 1) ? VF_PDSZ_ODD : VF_PDSZ;
+        uint8_t *nm = malloc(VF_KSZ), *dt = (i & 1) ? malloc(VF_PDSZ_ODD) : malloc(VF_PDSZ);
         VF_ASSUME(o != NULL && nm != NULL && dt != NULL);
         nm[0] = rank_key(i);
 #if VF_KSZ == 2
@@ -277,14 +290,14 @@ static void build_prestate(qtreetbl_t *t) {
         nm[1] = vfin.k2[i];
 #endif
 #endif
-        for (size_t b = 0; b < VF_PDSZ; b++) dt[b] = vfin.pv[i][b];
-        o->name = nm; o->namesize = VF_KSZ; o->data = dt; o->datasize = VF_PDSZ;
+        for (size_t b = 0; b < PDMAX; b++) if (b < pds) dt[b] = vfin.pv[i][b];
+        o->name = nm; o->namesize = VF_KSZ; o->data = dt; o->datasize = pds;
         o->red = T_RED[i];
         o->tid = vfin.tid[i];
         nd[i] = o;
         ikey[i][0] = nm[0]; ikey[i][1] = VF_KSZ > 1 ? nm[1] : 0; iklen[i] = VF_KSZ;
-        for (size_t b = 0; b < 3; b++) ival[i][b] = b < VF_PDSZ ? dt[b] : 0;
-        ivlen[i] = VF_PDSZ;
+        for (size_t b = 0; b < 3; b++) ival[i][b] = b < pds ? dt[b] : 0;
+        ivlen[i] = pds;
     }
     imn = VF_N;
     for (size_t i = 0; i < VF_N; i++) {
